@@ -3,7 +3,10 @@
 Path rules over ShareCrawler.{process_prefixdir, start_current_prefix,
 start_slice, stopService, save_state, load_state, __init__} and
 _LeaseStateSerializer.save (DESIGN.md section 5, C27)."""
+import copy
+
 from sa.h import *
+from sa import cfg as C
 
 EXPLANATION = (
     "Decided (structural, all paths): (1) progress markers: state['last-complete-bucket'] = bucket is written after "
@@ -85,6 +88,102 @@ def _loop_rules(r, fn, cfg, head, work, marker, what_work, what_marker):
 
 def _inside(loop_ast, node_ast):
     return any(x is node_ast for st in loop_ast.body for x in own_nodes(st))
+
+
+# --------------------------------------------------------------------------
+# A decision "which value is stored" can be written as a statement if/else with one store per branch, as ONE store
+# of a conditional expression, or through a temporary bound on several branches.  _leaves() reduces all three to
+# the same thing: a list of (site node, facts established inside the expression, IfExp-free value expression).
+def _subst_node(e, target, repl):
+    if e is target:
+        return repl
+    if not isinstance(e, ast.AST):
+        return e
+    new = copy.copy(e)
+    for f, v in ast.iter_fields(e):
+        if isinstance(v, list):
+            setattr(new, f, [_subst_node(x, target, repl) for x in v])
+        elif isinstance(v, ast.AST):
+            setattr(new, f, _subst_node(v, target, repl))
+    return new
+
+
+def _has_ifexp(e):
+    return any(isinstance(x, ast.IfExp) for x in own_nodes(e))
+
+
+def _sure_facts(at, test, pol):
+    """Canonical comparisons that certainly hold when `test` evaluates to `pol` (conjunctions are split,
+    disjunctions give nothing)."""
+    while isinstance(test, ast.UnaryOp) and isinstance(test.op, ast.Not):
+        test, pol = test.operand, not pol
+    if isinstance(test, ast.BoolOp):
+        if isinstance(test.op, ast.And) == pol:
+            out = []
+            for v in test.values:
+                out += _sure_facts(at, v, pol)
+            return out
+        return []
+    ft = at.cmp(test, pol)
+    return [ft] if ft else []
+
+
+def _leaves(fnorm, node, expr, conds=(), depth=6):
+    """[(site node, facts, leaf expr)] - every way the value of `expr` at `node` can be chosen."""
+    env = fnorm.env_at(node)
+    if depth > 0 and isinstance(expr, ast.Name):
+        ds = fnorm.rd.get(node.id, {}).get(expr.id)
+        if ds and C.PARAM_DEF not in ds and (len(ds) > 1 or expr.id in env.defs):
+            vals = [(fnorm.cfg.nodes[d], fnorm._def_value(fnorm.cfg.nodes[d], expr.id)) for d in sorted(ds)]
+            if all(v is not None for (_d, v) in vals):
+                out = []
+                for (dn, v) in vals:
+                    out += _leaves(fnorm, dn, v, conds, depth - 1)
+                return out
+    if depth > 0:
+        # a temporary that holds a conditional expression, used inside a larger expression
+        for x in own_nodes(expr):
+            if isinstance(x, ast.Name) and isinstance(x.ctx, ast.Load) and x is not expr \
+                    and x.id in env.defs and _has_ifexp(env.defs[x.id]):
+                return _leaves(fnorm, node, _subst_node(expr, x, env.defs[x.id]), conds, depth - 1)
+        for x in own_nodes(expr):
+            if isinstance(x, ast.IfExp):
+                at = fnorm.at(node)
+                out = []
+                for (pol, branch) in ((True, x.body), (False, x.orelse)):
+                    out += _leaves(fnorm, node, _subst_node(expr, x, branch),
+                                   tuple(conds) + tuple(_sure_facts(at, x.test, pol)), depth - 1)
+                return out
+    return [(node, tuple(conds), expr)]
+
+
+def _not_established(fnorm, cfg, site, conds, ok):
+    """[] when a fact accepted by `ok` holds wherever the leaf is chosen (inside the expression or on every CFG
+    path to its site); else the witnesses."""
+    if any(ok(c) for c in conds):
+        return []
+
+    def gate(n, lab):
+        ft = fnorm.edge_fact(n, lab)
+        return bool(ft) and ok(ft)
+    return find_path_avoiding(cfg, lambda x: x is site, gate_edge=gate)
+
+
+def _fact_str(ft):
+    if ft[2] is None:
+        return "%s%s (a truthiness test)" % ("not " if ft[0] == "false" else "", ft[1])
+    return "%s %s %s" % (ft[1], ft[0], ft[2])
+
+
+def _guards_about(fnorm, what, conds, w):
+    """The tests mentioning `what` under which a leaf is chosen (in-expression facts + the witness path)."""
+    fts = [c for c in conds if what in c[1:]]
+    if w is not None:
+        for (a, lab) in w.path:
+            ft = fnorm.edge_fact(a, lab)
+            if ft and what in ft[1:]:
+                fts.append(ft)
+    return fts
 
 
 # --------------------------------------------------------------------------
@@ -619,26 +718,52 @@ def run(ctx: Context):
                 return bool(ft) and ft[0] in (("is", "==") if pol else ("is not", "!=")) and set(ft[1:]) == {"None", what}
             return g
         starts = ccfg.find(_state_store(cn, "current-cycle", lambda n, v: not _is_none(v)))
-        if len(starts) < 2:
-            raise AnchorVanished("start_current_prefix no longer numbers a new cycle on two branches")
+        if not starts:
+            raise AnchorVanished("start_current_prefix no longer numbers a new cycle (no store of a cycle number to "
+                                 "state['current-cycle'])")
+
+        def lcf_none(ft):
+            return ft[0] in ("is", "==") and set(ft[1:]) == {"None", LCF}
+
+        def lcf_some(ft):
+            # a truthy last-cycle-finished is in particular not None
+            return (ft[0] in ("is not", "!=") and set(ft[1:]) == {"None", LCF}) or (ft[0] == "truth" and ft[1] == LCF)
+        NEXT = norm_src("self.state['last-cycle-finished'] + 1")
         seen_forms = set()
+        n_leaves = 0
         for n in starts:
-            v = cn.norm(n, _sub_store(cn, n)[2])
-            r.site(sc, n.ast, "current-cycle = %s" % v)
             for (t, w) in find_path_avoiding(ccfg, lambda x, _n=n: x is _n, gate_edge=fact_is(CUR, True)):
                 r.violation(sc, sc.loc(n.ast), "current-cycle is renumbered while a cycle is in progress: a resumed cycle "
                             "gets a new number (path: %s)" % w.brief(), w)
-            if v == "0":
-                seen_forms.add("first")
-                for (t, w) in find_path_avoiding(ccfg, lambda x, _n=n: x is _n, gate_edge=fact_is(LCF, True)):
-                    r.violation(sc, sc.loc(n.ast), "cycle numbering restarts at 0 although a cycle was finished before", w)
-            elif v == norm_src("self.state['last-cycle-finished'] + 1"):
-                seen_forms.add("next")
-                for (t, w) in find_path_avoiding(ccfg, lambda x, _n=n: x is _n, gate_edge=fact_is(LCF, False)):
-                    r.violation(sc, sc.loc(n.ast), "last-cycle-finished + 1 is computed although no cycle was finished", w)
-            else:
-                r.violation(sc, sc.loc(n.ast), "a new cycle is numbered %s (expected 0 or last-cycle-finished + 1)" % v)
-        r.require(seen_forms == {"first", "next"}, sc, sc.loc(), "cycle numbering lost a branch: %s" % sorted(seen_forms))
+            # the numbering decision, whatever its shape (if/else with two stores, one store of a conditional
+            # expression, a temporary bound on two branches): one leaf per way the number can be chosen
+            for (site, conds, leaf) in _leaves(cn, n, _sub_store(cn, n)[2]):
+                v = cn.at(site).norm(leaf)
+                n_leaves += 1
+                r.site(sc, site.ast, "current-cycle = %s%s" % (v, (" when " + " and ".join(_fact_str(c) for c in conds))
+                                                               if conds else ""))
+                if v == "0":
+                    seen_forms.add("first")
+                    bad = _not_established(cn, ccfg, site, conds, lcf_none)
+                    if bad:
+                        w = bad[0][1]
+                        gs = _guards_about(cn, LCF, conds, w)
+                        r.violation(sc, sc.loc(site.ast), "a new cycle is numbered 0 where 'last-cycle-finished is None' was "
+                                    "not established%s: cycle numbering restarts at 0 although a cycle (cycle 0) was "
+                                    "finished before, so cycle numbers stop increasing by one per completed cycle" % (
+                                        (" - the number is chosen under %s, which also holds when last-cycle-finished "
+                                         "is 0" % " and ".join(_fact_str(g) for g in gs)) if gs else ""), w)
+                elif v == NEXT:
+                    seen_forms.add("next")
+                    bad = _not_established(cn, ccfg, site, conds, lcf_some)
+                    if bad:
+                        r.violation(sc, sc.loc(site.ast), "last-cycle-finished + 1 is computed although no cycle was "
+                                    "finished (last-cycle-finished is None there)", bad[0][1])
+                else:
+                    r.violation(sc, sc.loc(site.ast), "a new cycle is numbered %s (expected 0 or last-cycle-finished + 1)" % v)
+        r.count(n_leaves * len(ccfg.nodes))
+        r.require(seen_forms == {"first", "next"}, sc, sc.loc(), "cycle numbering lost a branch: only %s is left of "
+                  "'0 the first time, last-cycle-finished + 1 afterwards'" % sorted(seen_forms))
         # a cycle is started (numbered) before the loop whenever none is in progress
         for (n, w) in find_path_avoiding(ccfg, lambda n: n is chead,
                                          gate_node=lambda n: any(n is s for s in starts),
